@@ -685,6 +685,12 @@ func checkLimiter(e *simEnv, p *LimPlan) {
 					o.known, o.res = true, lr.Res
 				}
 			}
+			// with a server clock offset the property does not say whose clock ResetAtMs is read on: the instants of a call
+			// are widened so that they hold on either clock
+			o.startMs += min(0, int64(p.ClockOffMs))
+			if o.endMs != limEndless {
+				o.endMs += max(0, int64(p.ClockOffMs))
+			}
 			if _, ok := byKey[o.key]; !ok {
 				keys = append(keys, o.key)
 				users[o.key] = map[int]bool{}
